@@ -24,6 +24,8 @@ structure RowsInv (ai0 n p a0L nL pL y tnz lnz : Nat) (store : Nat → Coeffs) (
   st : StRel 24 ov store s.1
   asz : ai0 + n ≤ s.2.1.size
   lsz : a0L + nL ≤ s.2.2.1.size
+  /-- after at least one row the word holds only the row's `n` flags -/
+  tb : y = 0 ∨ tnz < 2 ^ n
 
 /-- what a plane leaves alone -/
 structure PlaneFrame (ai0 n a0L nL : Nat) (s s' : RSt) : Prop where
@@ -46,7 +48,11 @@ theorem rows_step {ai0 n p a0L nL pL y tnz lnz : Nat} {store : Nat → Coeffs} {
     (hq : QInv s'.2.1 ai0 n p n st'.tnz) (hl : st'.l = s'.2.2.1.getD (a0L + y) 0) (hl1 : st'.l ≤ 1)
     (hst : StRel 24 ov st'.store s'.1) (hfr : RowFrame ai0 n (a0L + y) s s') :
     RowsInv ai0 n p a0L nL pL (y + 1) (st'.tnz >>> (p + 1 - n)) (lnz >>> 1 ||| st'.l <<< pL) st'.store ov s' := by
-  refine ⟨qinv_restart hq hn, ?_, hst, by rw [hfr.asz]; exact h.asz, by rw [hfr.lsz]; exact h.lsz⟩
+  refine ⟨qinv_restart hq hn, ?_, hst, by rw [hfr.asz]; exact h.asz, by rw [hfr.lsz]; exact h.lsz, Or.inr ?_⟩
+  swap
+  · rw [Nat.shiftRight_eq_div_pow, Nat.div_lt_iff_lt_mul (Nat.pow_pos (by omega)), ← Nat.pow_add,
+      show n + (p + 1 - n) = p + 1 by omega]
+    exact hq.lt
   refine qinv_frame (qinv_step h.ql hy hnL st'.l hl1 h.lsz) (fun i _ _ => ?_) (by omega)
   rw [getD_setN]
   by_cases hi : a0L + y = i
